@@ -740,29 +740,61 @@ def r31_reduce_last(facts):
                 found += 1
                 inst = "closure:%s#%s" % (cb["def"], (resolved(n) or "").rsplit("::", 1)[-1])
                 where = F.loc(nb, n)
-                verdict = None
-                for a in reversed(anc):
-                    k = a.get("k")
-                    if k in ("Borrow", "Deref", "Use", "NeverToAny", "PointerCoercion", "Block", "If", "Match", "Scope", "Adt", "Array", "Tuple"):
-                        continue
-                    if k == "Call":
-                        ca = callee(a) or ""
-                        ra = resolved(a) or ""
-                        if ca in PASS_THROUGH or ca.endswith("::clone") or ca.endswith("box_assume_init_into_vec_unsafe") or ca.endswith("write_box_via_move") \
-                                or ca in ("core::bool::<impl bool>::then_some", "alloc::vec::Vec::<T, A>::push", "core::iter::sources::once::once"):
+
+                def judge(node, anc):
+                    for a in reversed(anc):
+                        k = a.get("k")
+                        if k in ("Borrow", "Deref", "Use", "NeverToAny", "PointerCoercion", "Block", "If", "Match", "Scope", "Adt", "Array", "Tuple"):
                             continue
-                        others = [x for x in a["args"] if not any(y is n for y in walk(x))]
-                        is_arith = any(m in ca for m in ARITH_MARK) or (a.get("ty") == ARRAY and (a.get("callee") or {}).get("resolved_local"))
-                        if is_arith and any(mentions(o, cvars) for o in others):
-                            verdict = ("bad", "the adjoint is reduced by `%s` and then combined with an operand in `%s`: a sum over the broadcast dimensions does not commute "
-                                       "with a factor that varies along them (wrong for a broadcast operand)" % (show(n)[:60], show(a)[:80]))
-                        elif is_arith:
-                            verdict = ("unk", "the reduced adjoint enters `%s`" % show(a)[:80])
-                        else:
-                            verdict = ("unk", "the reduced adjoint is passed to `%s`" % (ra or ca))
-                        break
-                    verdict = ("unk", "the reduced adjoint is used in a %s expression" % k)
-                    break
+                        if k == "Call":
+                            ca = callee(a) or ""
+                            ra = resolved(a) or ""
+                            if ca in PASS_THROUGH or ca.endswith("::clone") or ca.endswith("box_assume_init_into_vec_unsafe") or ca.endswith("write_box_via_move") \
+                                    or ca in ("core::bool::<impl bool>::then_some", "alloc::vec::Vec::<T, A>::push", "core::iter::sources::once::once"):
+                                continue
+                            others = [x for x in a["args"] if not any(y is node for y in walk(x))]
+                            is_arith = any(m in ca for m in ARITH_MARK) or (a.get("ty") == ARRAY and (a.get("callee") or {}).get("resolved_local"))
+                            if is_arith and any(mentions(o, cvars) for o in others):
+                                return ("bad", "the adjoint is reduced by `%s` and then combined with an operand in `%s`: a sum over the broadcast dimensions does not commute "
+                                        "with a factor that varies along them (wrong for a broadcast operand)" % (show(n)[:60], show(a)[:80]))
+                            elif is_arith:
+                                return ("unk", "the reduced adjoint enters `%s`" % show(a)[:80])
+                            return ("unk", "the reduced adjoint is passed to `%s`" % (ra or ca))
+                        return ("unk", "the reduced adjoint is used in a %s expression" % k)
+                    return None
+                verdict = judge(n, anc)
+                # a reduced adjoint bound to a local: every later use of the local is a use of the reduced value
+                bound = None
+                if verdict is None:
+                    for nb2 in bodies:
+                        for blk in walk(facts.root(nb2)):
+                            if blk.get("k") == "Block":
+                                for st in blk["stmts"]:
+                                    if st["s"] == "let" and st.get("init") is not None and st["pat"].get("k") == "Binding" and any(y is n for y in walk(st["init"])):
+                                        bound = st["pat"]["v"]
+                    if bound is not None:
+                        for nb2 in bodies:
+                            for u, anc_u in _ancestors(facts.root(nb2)):
+                                if u.get("k") in ("VarRef", "UpvarRef") and u["v"] == bound and verdict is None:
+                                    verdict = judge(u, anc_u)
+                # ... and a contribution that is reduced at all is reduced to the dimensions of the operand whose slot it fills
+                if verdict is None and len(n["args"]) >= 2:
+                    tgt = None
+                    for y in walk(n["args"][1]):
+                        base_, i_ = None, None
+                        if y.get("k") == "Index":
+                            base_, i_ = y["e"], y["i"]
+                        elif y.get("k") == "Call" and callee(y) == "core::ops::index::Index::index" and len(y["args"]) == 2:
+                            base_, i_ = y["args"][0], y["args"][1]
+                        if base_ is not None and F.var_of(F.peel(base_)) in cvars and isinstance(lit_value(i_), int):
+                            tgt = lit_value(i_)
+                    slots_, _, _ = closure_slots(facts, cb) if nb is cb or True else (None, None, None)
+                    if tgt is not None and slots_:
+                        for i_s, sl in enumerate(slots_):
+                            uses = any(y is n for y in walk(sl)) or (bound is not None and any(y.get("k") in ("VarRef", "UpvarRef") and y["v"] == bound for y in walk(sl)))
+                            if uses and i_s != tgt and verdict is None:
+                                verdict = ("bad", "the contribution delivered to operand %d is reduced to the dimensions of operand %d (`%s`): for operands of different shapes it "
+                                           "arrives with another operand's shape and its broadcast sums" % (i_s, tgt, show(n)[:70]))
                 if verdict is None:
                     c.ok(inst, where, "the reduction is the last operation on this slot's value")
                 elif verdict[0] == "bad":
